@@ -72,6 +72,9 @@ def run_impl(case):
                 for a in ("hMerge", "vMerge"):
                     if tc.get(a) in ("1", "0"):
                         tc.set(a, "true" if tc.get(a) == "1" else "false")
+                    elif tc.get(a) is None:
+                        # ... and the ordinary state written out (hMerge="false" / vMerge="0") where the library leaves it away
+                        tc.set(a, "false" if a == "hMerge" else "0")
         before = etree.tostring(tbl._tbl)
         if op[0] == "m":
             _, r1, c1, r2, c2 = op
